@@ -1666,7 +1666,12 @@ func (x *Exec) convert(st *State, n *ssa.Convert) {
 			a := x.allocObj(st)
 			_, cur := x.w.comp(st, "Int:uint8")
 			st.assume(fmt.Sprintf("(forall ((k!c Int)) (! (=> (and (<= 0 k!c) (< k!c (len %s))) (= (select %s (idx %s k!c)) (at %s k!c))) :pattern ((select %s (idx %s k!c)))))", v.S, cur, a, v.S, cur, a))
-			fr.vals[n] = Val{S: app("mk_slice", a, "0", app("len", v.S), app("len", v.S)), Sort: "Slice", T: n.Type()}
+			sl := app("mk_slice", a, "0", app("len", v.S), app("len", v.S))
+			// read back as a string, the new bytes are the string they were copied from (a consequence of the cell facts
+			// above and extensionality; stated because the solvers find it only by luck - it went missing when an
+			// unrelated datatype was declared in the same query)
+			st.assume(app("=", app("bytes2str", cur, sl), v.S))
+			fr.vals[n] = Val{S: sl, Sort: "Slice", T: n.Type()}
 			return
 		}
 		unsup("conversion string -> %s", n.Type())
